@@ -126,9 +126,6 @@ fn dispatch_negative() {
     std::mem::forget(tcb);
 }
 
-pub fn dns_try_from_stub(_v: Vec<u8>) -> Result<DNSPacket, &'static str> {
-    Err("cut: DNS fallback is decided by c14_dns_*")
-}
 
 //# harness: c10_dispatch_pos_0
 //# props: C10 C19
@@ -365,7 +362,7 @@ fn c10_dispatch_pos_9() {
 //# tier: quick
 //# encodes: proto::repl (dispatcher)
 //# bounds: 6 arbitrary bytes whose first byte is none of 00 G P H D C O T S (no signature can complete); datagram and TCP mode
-//# stubs: the eight responders -> tag-returning functions; proto_init -> real tables; DNSPacket::try_from -> Err (DNS fallback is not signature-dispatched; decided by c14_dns_*)
+//# stubs: the eight responders -> tag-returning functions; proto_init -> real tables; (none for DNS: 6 bytes cannot hold the 12-byte DNS header, so the real DNS fallback parser rejects them)
 //# note: the exhaustive negative direction over all strings <= 29 bytes is decided by the z3 table engine (lib/c10_z3.py)
 //# cover: not dispatched
 #[kani::proof]
@@ -379,7 +376,6 @@ fn c10_dispatch_pos_9() {
 #[kani::stub(crate::proto::rpc::repl_udp, tag_rpc_udp)]
 #[kani::stub(crate::proto::smb::repl_smb1, tag_smb1)]
 #[kani::stub(crate::proto::smb::repl_smb2, tag_smb2)]
-#[kani::stub(<crate::proto::dns::DNSPacket as std::convert::TryFrom<std::vec::Vec<u8>>>::try_from, dns_try_from_stub)]
 fn c10_dispatch_neg_6() {
     dispatch_negative()
 }
